@@ -437,7 +437,11 @@ impl Rig {
         let evs_stalled = self.sh.log.evs.lock().unwrap().iter().any(|e| e.0.run == run && (e.2["k"] == "stall" || e.2["k"] == "sendstall"));
         let park = if outcome == Outcome::Stalled || evs_stalled { park_of(&local_addr) } else { None };
         let park_hol = park.as_ref().map(|p| p["hol"] == true).unwrap_or(false);
-        let budget_kill = budget_hit(&local_addr);
+        // the iteration budget is an open finding only when the peers really supplied a burst of thousands of frames;
+        // a session that burns its budget without that much input is spinning (a different defect)
+        let frames = self.sh.take_frames(run);
+        let budget_hook = budget_hit(&local_addr);
+        let budget_kill = budget_hook && frames >= 3000;
         let evs = self.sh.log.take_run(run);
         let inconclusive = outcome == Outcome::Inconclusive || backend_pending || self.sh.inconclusive.lock().unwrap().contains(&run);
         let mut msgs = Vec::new();
@@ -464,11 +468,11 @@ impl Rig {
                 bytes += sev.iter().filter(|e| e["k"] == "sent").map(|e| e["len"].as_u64().unwrap_or(0)).sum::<u64>();
                 classes.push(format!("{kind}/{}/{:?}/{}/{}", dir_name(d as u8), mp.framing, size_class(mp.size, self.buffer_size), rp.rdelay_us > 0 || rp.h2_window < 65535));
                 let hdr = json!({"ev":"msg","run":run,"s":sp.idx,"d":dir_name(d as u8),"ns":sev.len(),"nr":rev.len(),"pair":kind,"nstreams":plan.streams.len(),
-                    "companion_aborted":companion_aborted,"park_hol":park_hol,"budget_kill":budget_kill,"park":park.as_ref().map(|p| format!("{} || {} || {}", p["front"].as_str().unwrap_or(""), p["backs"].as_str().unwrap_or(""), p["streams"].as_str().unwrap_or(""))).unwrap_or_default(),"msg":msg_json(mp),"reader":read_json(rp),"cluster":cluster,"seed":plan.seed.to_string()});
+                    "companion_aborted":companion_aborted,"park_hol":park_hol,"budget_kill":budget_kill,"budget_hook":budget_hook,"frames":frames,"park":park.as_ref().map(|p| format!("{} || {} || {}", p["front"].as_str().unwrap_or(""), p["backs"].as_str().unwrap_or(""), p["streams"].as_str().unwrap_or(""))).unwrap_or_default(),"msg":msg_json(mp),"reader":read_json(rp),"cluster":cluster,"seed":plan.seed.to_string()});
                 msgs.push((hdr, sev, rev));
             }
         }
-        let summary = json!({"run":run,"pair":kind,"park":park,"budget_kill":budget_kill,"streams":plan.streams.len(),"bytes":bytes,"outcome":format!("{:?}", outcome),
+        let summary = json!({"run":run,"pair":kind,"park":park,"budget_kill":budget_kill,"budget_hook":budget_hook,"frames":frames,"streams":plan.streams.len(),"bytes":bytes,"outcome":format!("{:?}", outcome),
             "sizes": plan.streams.iter().map(|s| json!([s.req.size, s.resp.size])).collect::<Vec<_>>(),
             "foreign_answers":foreign,"protocol_errors":proto_err,"goaway":goaway});
         RunResult { error, inconclusive, kind, classes, bytes, summary, msgs }
